@@ -334,15 +334,15 @@ def run(ctx):
     ctx.note("histories_from_tlc", len(hist))
     ctx.exhaustive = True
     ctx.rule = ("TLC: all interleavings of <= %d mechanism actions; Session.tla: all histories of <= %d edit/call actions; every history x "
-                "{Dataset, DataArray} x observed operations (quick: all histories of <= 2 actions and a seeded quarter of the longer ones, a seeded third of the operations) replayed and compared with a fresh object evaluated in a "
+                "{Dataset, DataArray} x observed operations (quick: all histories of <= 2 actions and a seeded fifth of the longer ones, a seeded third of the operations) replayed and compared with a fresh object evaluated in a "
                 "pristine child process. distinct_nontrivial = distinct (history, kind, operation) with a non-empty history." % (steps, maxlen))
     other = xr.DataArray(np.arange(30.0).reshape(5, 6) % 7, coords={"freq": np.linspace(0.05, 0.25, 5), "dir": np.arange(0.0, 360.0, 60.0)},
                          dims=("freq", "dir"), name="efth")
     from harness.core import REPO
     sample = REPO + "/tests/sample_files/swanfile.spec"
     for acts, ver in hist:
-        if ctx.quick and len(acts) >= 3 and hash((acts, ctx.seed)) % 4:
-            continue          # quick: every history of one or two actions, a seeded quarter of those of three
+        if ctx.quick and len(acts) >= 3 and hash((acts, ctx.seed)) % 5:
+            continue          # quick: every history of one or two actions, a seeded fifth of those of three
         for kind_ in ("ds", "da"):
             obj = S.make(1, 1)
             if kind_ == "ds":
